@@ -20,6 +20,8 @@ import hashlib
 import multiprocessing
 import os
 import random
+import resource
+import signal
 import subprocess
 import sys
 import sysconfig
@@ -121,12 +123,48 @@ class Capture:
     return False
 
 
+class RealCodeTimeout(Exception):
+  pass
+
+
+class time_limit:
+  """CPU-time limit (ITIMER_VIRTUAL: immune to machine load) for calls into the real, pure Python code: a
+  loop that no longer terminates must become a reported failing input, not a hung check."""
+
+  def __init__(self, seconds):
+    self.seconds = seconds
+
+  def _raise(self, *_):
+    raise RealCodeTimeout("no result within %d s of CPU time" % self.seconds)
+
+  def __enter__(self):
+    self.old = signal.signal(signal.SIGVTALRM, self._raise)
+    signal.setitimer(signal.ITIMER_VIRTUAL, self.seconds)
+
+  def __exit__(self, *a):
+    signal.setitimer(signal.ITIMER_VIRTUAL, 0)
+    signal.signal(signal.SIGVTALRM, self.old)
+    return False
+
+
+REAL_LIMIT_S = 20          # CPU seconds per source (the largest stdlib file needs ~2)
+MEM_LIMIT = 6 << 30        # address-space cap of a worker: a runaway list becomes a MemoryError
+
+
+def _worker_init():
+  try:
+    resource.setrlimit(resource.RLIMIT_AS, (MEM_LIMIT, MEM_LIMIT))
+  except (ValueError, OSError):
+    pass
+
+
 def process_source(src, filename):
   """compile_src + process_code on the real code; returns (OrderedCode, captures)."""
   m = pt()
   code = m["pyc"].compile_src(src, filename, (3, 12), None, mode="exec")
   with Capture() as cap:
-    oc, _ = m["blocks"].process_code(code)
+    with time_limit(REAL_LIMIT_S):
+      oc, _ = m["blocks"].process_code(code)
   return oc, cap.caps
 
 
@@ -700,6 +738,14 @@ PALETTE = ["LOAD_CONST", "POP_TOP", "POP_JUMP_IF_FALSE", "JUMP_FORWARD", "JUMP_B
 
 
 def synth_real(case):
+  try:
+    with time_limit(20):
+      return _synth_real(case)
+  except RealCodeTimeout:
+    return "err timeout RealCodeTimeout"
+
+
+def _synth_real(case):
   """Runs the real functions on a synthetic stream.  case = (ver_minor, with_pop, items, entries) with
   items = [(off2, clsname, argval2|None, pre2|None, push)] (doubled offsets)."""
   m = pt()
@@ -950,12 +996,14 @@ def graph_real(case):
     tb.incoming.add(nodes[a])
   lst = [nodes[i] for i in ids]
   try:
-    o = m["cfg_utils"].order_nodes(lst)
-    r1 = ("ok " + " ".join(str(x.id) for x in o)) if o or True else ""
+    with time_limit(10):
+      o = m["cfg_utils"].order_nodes(lst)
+    r1 = "ok " + " ".join(str(x.id) for x in o)
   except Exception as e:   # pylint: disable=broad-except
     r1 = "err " + e.__class__.__name__
   try:
-    pm = m["cfg_utils"].compute_predecessors(lst)
+    with time_limit(10):
+      pm = m["cfg_utils"].compute_predecessors(lst)
     r2 = "ok " + ";".join("%d:%s" % (x.id, ",".join(str(p.id) for p in sorted(pm[x], key=lambda q: q.id))) for x in lst)
   except Exception as e:   # pylint: disable=broad-except
     r2 = "err " + e.__class__.__name__
@@ -1027,7 +1075,7 @@ def correspond(res, rng, tier):
   hashes = set()
   samples = []
   pt()   # import the real modules once; the forked workers inherit them
-  with multiprocessing.Pool(NPROC) as pool:
+  with multiprocessing.Pool(NPROC, initializer=_worker_init) as pool:
     for st, mism, hs, pr, smp in pool.imap_unordered(_worker_sources, jobs):
       stats.update(st)
       prem.update(pr)
@@ -1061,8 +1109,10 @@ def correspond(res, rng, tier):
     glines.append("CP " + body.strip())
   gout = run_driver(glines)
   g_nontriv = 0
+  with multiprocessing.Pool(NPROC, initializer=_worker_init) as pool:
+    greal = pool.map(graph_real, gcases, chunksize=50)
   for k, case in enumerate(gcases):
-    r1, r2 = graph_real(case)
+    r1, r2 = greal[k]
     m1, m2 = gout[2 * k], gout[2 * k + 1]
     if r1.startswith("ok") and len(r1.split()) > 2:
       g_nontriv += 1
@@ -1206,6 +1256,7 @@ def search(res, rng, disagreements, pfail):
   every source of this run; failing sources are shrunk by statement removal."""
   found = []
   t0 = time.time()
+  _worker_init()   # from here on the real code also runs in this process (shrinking): cap its memory
   cands = []
   for d in disagreements:
     if d.get("kind") in ("model-vs-real", "real-code-raised") and d.get("source"):
@@ -1236,7 +1287,7 @@ def search(res, rng, disagreements, pfail):
       continue
     seen.add(n)
     todo.append((n, s))
-  with multiprocessing.Pool(NPROC) as pool:
+  with multiprocessing.Pool(NPROC, initializer=_worker_init) as pool:
     results = pool.imap(_oracle_job, todo, chunksize=4)
     failing = []
     for (n, s), fl in zip(todo, results):
